@@ -82,6 +82,9 @@ type Sys struct {
 	Obs map[string]int
 	// Trace is the canonical state after every applied event.
 	Trace []string
+	// Hist is the list of applied events; StuckNote the first stuck-orphan observation.
+	Hist      []int
+	StuckNote string
 	canon string // cached Canon() of the current state
 	isFork bool  // shares another system's chain; no block events
 	// AlwaysPrivate makes the system own its chain (and the sync manager) from the start.
@@ -162,7 +165,7 @@ func (s *Sys) Fork() *Sys {
 	}
 	t := &Sys{W: s.W, Pol: s.Pol, Obs: map[string]int{}, bc: s.bc, isFork: true,
 		Active: append([]*lab.Blk(nil), s.Active...), reorgs: s.reorgs, blocks: s.blocks,
-		maxHeight: s.maxHeight, maxMTP: s.maxMTP, Trace: append([]string(nil), s.Trace...)}
+		maxHeight: s.maxHeight, maxMTP: s.maxMTP, Trace: append([]string(nil), s.Trace...), Hist: append([]int(nil), s.Hist...)}
 	t.newPool()
 	for _, r := range order {
 		if _, err := t.MP.ProcessTransaction(t.txs[s.W.ByID[r.ID].Idx], false, true, 0); err != nil {
